@@ -54,7 +54,7 @@ pub fn build(s: &C09Scn) -> WorldSys {
 	for i in s.async_from_start.iter() {
 		sys.async_on[*i] = true;
 	}
-	sys.oracles.push(Box::new(NoErrorOracle { allow_coop: false, allow_force_by_user: false }));
+	sys.oracles.push(Box::new(NoErrorOracle { allow_coop: false, allow_force_by_user: false, ..Default::default() }));
 	sys.oracles.push(Box::new(po));
 	sys.oracles.push(Box::new(CommitmentOracle::new(infos)));
 	sys.oracles.push(Box::new(rev));
